@@ -1869,7 +1869,10 @@ PSBT Pubs:\n{self.named_pubs}
         script_pubkey = self.tx_out.script_pubkey
         # if the ScriptPubKey is p2sh, check for a RedeemScript
         if script_pubkey.is_p2sh():
-            self.redeem_script = redeem_lookup.get(script_pubkey.commands[1])
+            # keep a RedeemScript the output already carries (as PSBTIn.update does)
+            self.redeem_script = self.redeem_script or redeem_lookup.get(
+                script_pubkey.commands[1]
+            )
             # if no RedeemScript exists, we can't update, so return
             if not self.redeem_script:
                 return
